@@ -142,11 +142,19 @@ check('C14', 'model_checking',
       'whole grid I<=6,N<=4,C<=8,T<=64 and refutes the snapshot\'s remainder '
       'rule.  The real command is driven for every grid configuration and '
       'job index with Process/cpu_count substituted; TLC judges the recorded '
-      'tasks (C14_Data.tla).',
-      'DESIGN.md 4/C14',
-      'Trusted: TLC; substitution of multiprocessing in panqec.cli.',
+      'tasks (C14_Data.tla).  End to end: Pipeline.tla composes that '
+      'arithmetic with BatchSimulation\'s resume rule and Analysis\' pooling '
+      '(job orders, re-runs, --delete-existing, tasks stopped early, '
+      'extended requests; exhaustive, 3.4k / 334k states); behaviours from '
+      'TLC\'s simulation are executed on the real command with real '
+      'processes and result files, and Pipeline_Trace.tla validates what the '
+      'files and Analysis show after every step.',
+      'DESIGN.md 4/C14, 9',
+      'Trusted: TLC; substitution of multiprocessing in panqec.cli (grid '
+      'part); a task stopped early is realised by a smaller target.',
       'TLA+ arithmetic model checked exhaustively + spec->code grid replay '
-      'through the real CLI callback',
+      'through the real CLI callback + end-to-end Pipeline.tla behaviours '
+      'executed on the real command and trace-validated by TLC',
       'tlc-data')
 
 check('C13', 'model_checking',
